@@ -102,7 +102,13 @@ def state(vc):
             a = object.__new__(C)
             a.__dict__.update(julian_date_start=j0, datetime_start=start, _truth_state=None, _time=ScenarioTime(0.0))
             a.importState(rec)
-            vc.ensure(f"O-C19-state.{name}", bool(np.array_equal(a.eci_state, eci)) and abs(float(a._time) - want_t) < 5e-5)
+            ok = bool(np.array_equal(a.eci_state, eci)) and abs(float(a._time) - want_t) < 5e-5
+            if C is SensingAgent:
+                # the sensing agent converts its state to Earth-fixed / geodetic coordinates eagerly: at the RECORD's epoch, not the one it had before the import
+                from resonaate.physics.transforms.methods import eci2ecef
+                now = start + datetime.timedelta(seconds=want_t)
+                ok = ok and bool(np.allclose(a.ecef_state, eci2ecef(np.array(eci), now), rtol=0, atol=1e-3 + 1e-7 * float(np.abs(eci).max())))
+            vc.ensure(f"O-C19-state.{name}", ok)
         return
     JD = vc.float_class(SD + "JulianDate")
     ST = vc.float_class(SD + "ScenarioTime")
@@ -118,12 +124,13 @@ def state(vc):
     seen = {}
     vc.stub(SA + "@eci2ecef", lambda x, d: (seen.__setitem__("ecef", (x, d)), "ECEF")[1])
     vc.stub(SA + "@ecef2lla", lambda x: "LLA")
-    C = vc.cls(SA + "SensingAgent", extra_methods={"datetime_epoch": "NOW"})
+    # (the epoch the conversion uses is a function of the agent's clock AT THAT MOMENT: it must be the record's time, not the time the agent had before the import)
+    C = vc.cls(SA + "SensingAgent", extra_methods={"datetime_epoch": property(lambda self: ("EPOCH-AT", self._time))})
     s = object.__new__(C)
-    s.__dict__.update(julian_date_start=JD(jd0), _truth_state=None, _time=None)
+    s.__dict__.update(julian_date_start=JD(jd0), _truth_state=None, _time="TIME-BEFORE-THE-IMPORT")
     s.importState(rec)
     vc.ensure("O-C19-state.sensor", vc.And(vc.eq(s._truth_state, eci), vc.eq(val(s._time), (jd - jd0) * 24 * 3600), s._ecef_state == "ECEF", s._lla_state == "LLA",
-                                            seen["ecef"][1] == "NOW"))
+                                            seen["ecef"][1][0] == "EPOCH-AT" and seen["ecef"][1][1] is s._time))
 
 
 def _calls_in(tree):
